@@ -945,6 +945,8 @@ class Interp(object):
                     return g
         base = self.expr(m, e.value, env)
         a = e.attr
+        if isinstance(base, tuple) and len(base) == 3 and base[0] in ("func", "class") and a == "__name__":
+            return base[2].name
         if isinstance(base, np.ndarray):
             if a == "T":
                 return base.T
